@@ -1225,10 +1225,21 @@ func (s *Server) subscriptionsListen(ctx context.Context, req *SubscriptionsList
 	}
 	s.mu.Unlock()
 	defer func() {
+		// Remove only the entries this listen registered (they carry its
+		// requestID). Another subscriptions/listen stream of the same session
+		// may own the others: e.g. the per-URI stream opened by
+		// ClientSession.Subscribe ends while the connect-time stream that
+		// opted in to list-changed notifications is still live.
 		s.mu.Lock()
-		delete(s.toolChangeSubscriptions, req.Session)
-		delete(s.promptChangeSubscriptions, req.Session)
-		delete(s.resourceChangeSubscriptions, req.Session)
+		for _, subs := range []map[*ServerSession]jsonrpc.ID{
+			s.toolChangeSubscriptions,
+			s.promptChangeSubscriptions,
+			s.resourceChangeSubscriptions,
+		} {
+			if id, ok := subs[req.Session]; ok && id == requestID {
+				delete(subs, req.Session)
+			}
+		}
 		s.mu.Unlock()
 	}()
 
